@@ -317,7 +317,10 @@ def fn_to_sympy(
         if isinstance(sympy_expr, float):
             return sympy.Float(sympy_expr)
         if model_args is not None and len(model_args):
-            sympy_expr = sympy_expr.subs(dict(zip(fn_args, model_args, strict=True)))
+            sympy_expr = sympy_expr.subs(
+                dict(zip(fn_args, model_args, strict=True)),
+                simultaneous=True,
+            )
         return cast(sympy.Expr, sympy_expr)
 
     except (TypeError, ValueError, NotImplementedError) as e:
